@@ -338,6 +338,8 @@ def part_c(rep, tier, only=None):
 
 
 def replay_c(o):
+    import re
+
     import mpmath
 
     import functional_algorithms.utils as U
@@ -347,16 +349,23 @@ def replay_c(o):
         return dict(replayed=False, witness_class=None)
     t = getattr(numpy, meta["t"])
     eb, sb = FMT[t]
-    bits = (int(m.get("s", {}).get("value", 0)) << (eb + sb - 1)) | (meta["E"] << (sb - 1)) | int(m.get("F", {}).get("value", 0))
-    x = UINT[t](bits).view(t)
-    info = dict(x=repr(x), bits=hex(bits), witness_class="float2mpf %s" % meta["t"])
-    try:
-        with mpmath.workprec(sb + 10):
-            got = mpf_value(U.float2mpf(mpmath.mp, x))
-        want = exact_value(bits, t)
-        info.update(got=str(got), want=str(want), replayed=bool(got != want))
-    except Exception as e:
-        info.update(raised=repr(e), replayed=True)
+    mm = re.search(r"/ctxprec=(\d+)/", o.id)
+    wp = int(mm.group(1)) if mm else sb + 10
+    info = dict(witness_class="float2mpf %s" % meta["t"], replayed=False)
+    # the model's fraction field first; fields the solver left unconstrained are 0 there, so all-ones and 1 are tried as well
+    for Fv in (int(m.get("F", {}).get("value", 0)), (1 << (sb - 1)) - 1, 1):
+        bits = (int(m.get("s", {}).get("value", 0)) << (eb + sb - 1)) | (meta["E"] << (sb - 1)) | Fv
+        x = UINT[t](bits).view(t)
+        info.update(x=repr(x), bits=hex(bits), context_precision=wp)
+        try:
+            with mpmath.workprec(wp):
+                got = mpf_value(U.float2mpf(mpmath.mp, x))
+            want = exact_value(bits, t)
+            info.update(got=str(got), want=str(want), replayed=bool(got != want))
+        except Exception as e:
+            info.update(raised=repr(e), replayed=True)
+        if info["replayed"]:
+            break
     return info
 
 
